@@ -558,7 +558,12 @@ fn parse_token(
             None => implementation_error(format!("Index assigned to node has no value in node list. {:?}", index))?,
             Some(node) => {
                 trace!("Updating true left's ({:?}) parent to {:?}", index, id);
-                node.parent = Some(id)
+                node.parent = Some(id);
+                // it was only assumed that the next node would be its right operand,
+                // a node cannot be both the parent and the right operand
+                if node.right == Some(id) {
+                    node.right = None;
+                }
             }
         },
     }
